@@ -25,6 +25,10 @@ def generate(ctx):
     cases = []
     for i in range(n):
         g = cfglib.rand_cfg(ctx.rng, names="plain" if ctx.rng.random() < 0.85 else "adv")
+        if OPS[i % len(OPS)] == "get_words" and ctx.rng.random() < 0.15:
+            g = cfglib.rand_cfg(ctx.rng, profile="doubling")
+            cases.append({"op": "get_words", "g": g, "n": 4, "warm": None})
+            continue
         cases.append({"op": OPS[i % len(OPS)], "g": g, "n": ctx.rng.choice([0, 1, 2, 3, 3, 4]) if len(g["terms"]) < 3 else ctx.rng.choice([0, 1, 2, 3]),
                       "warm": ctx.rng.choice([None, None, ["is_empty"], ["get_nullable_symbols", "get_generating_symbols"], ["generate_epsilon"]])})
     return cases
